@@ -256,6 +256,18 @@ def normalize(raw):
         same_name_now = [n for n in cur["fns"] if n.rsplit("::", 1)[-1] == last and not n.startswith("<")]
         if len(cands) == 1 and len(others) == 1 and len(same_name_now) == 1:
             fn_map[cands[0]] = m
+    # a private function renamed AND moved inside its module (a nested fn hoisted to a free fn under a better name):
+    # the only missing and the only new function of the module with that signature, generic parameter names aside
+    def _gsig(sig):
+        return re.sub(r"\b[A-Z][A-Z0-9]{0,2}\b(?!::)", "G", sig)
+    for m in missing:
+        if m in fn_map.values():
+            continue
+        gs = _gsig(pin["fns"][m]["sig"])
+        cands = [n for n in new if n not in fn_map and _module(n) == _module(m) and _gsig(cur["fns"][n]["sig"]) == gs]
+        others = [x for x in missing if x not in fn_map.values() and _module(x) == _module(m) and _gsig(pin["fns"][x]["sig"]) == gs]
+        if len(cands) == 1 and len(others) == 1 and gs.count(",") >= 1:
+            fn_map[cands[0]] = m
     if fn_map:
         log["fns"] = dict(fn_map)
         _rename_fns(raw, fn_map)
